@@ -22,6 +22,11 @@
 (*     verifies against the root to exactly the stored value or to absence" *)
 (*  TamperedProofNeverLies -- "no tampered proof verifies to a different    *)
 (*     answer"                                                              *)
+(*  NoPanic -- an operation of the map that panics returns nothing at all:  *)
+(*     a recovered panic (event field `panic`, no observation) is a verdict *)
+(*     of its own, never an evaluation error of this monitor.  Every other  *)
+(*     clause is evaluated only on events that carry an observation, and    *)
+(*     every optional field (res, ret, tamper, roots, alias) is guarded.    *)
 (***************************************************************************)
 EXTENDS Trie
 
@@ -36,7 +41,9 @@ VARIABLES l,        \* next line
 mvars == <<s, hist, l, variant, rank, rootOf, tableok, viol, fired>>
 
 ClauseNames == {"GetEqualsModel", "IterationEqualsModel", "IterationAscending", "SameContentSameRoot", "RootIsStandard",
-                "ReopenLosesNothing", "GcKeepsLiveRoots", "ProofVerifiesToModel", "TamperedProofNeverLies"}
+                "ReopenLosesNothing", "GcKeepsLiveRoots", "ProofVerifiesToModel", "TamperedProofNeverLies", "NoPanic"}
+\* clauses that read the observation taken after the action; an event of a panicked action carries none
+ObsClauses == ClauseNames \ {"NoPanic"}
 
 Has(e, f) == f \in DOMAIN e
 Failed(e) == Has(e, "panic") \/ Has(e, "err")
@@ -57,12 +64,15 @@ StableOk(e) == Has(e.obs, "alias") => e.obs.alias[2] = 0
 \* the same proof produced into a sink that RETAINS the slices it is handed (like core/state.proofList): verified after Prove
 \* returned, again after a second Prove on the same trie, and that second proof from its own retaining sink
 CopyProofOk(e, c) == ~Failed(e) /\ Has(e, "res") /\ e.res = c[e.args.k]
-RetainProofOk(e, c) == Has(e, "ret") => (~Has(e.ret, "err") /\ e.ret.res = c[e.args.k] /\ e.ret.again = c[e.args.k] /\ e.ret.res2 = c[e.ret.k2])
+RetainProofOk(e, c) == Has(e, "ret") => (/\ ~Has(e.ret, "err")
+                                         /\ Has(e.ret, "res") /\ Has(e.ret, "again") /\ Has(e.ret, "res2") /\ Has(e.ret, "k2")
+                                         /\ e.ret.res = c[e.args.k] /\ e.ret.again = c[e.args.k] /\ e.ret.res2 = c[e.ret.k2])
 \* extra discriminators: which part of a clause failed
 Extra(cl, e, s2) ==
-   CASE cl = "ProofVerifiesToModel" /\ CopyProofOk(e, s2.kv) /\ ~RetainProofOk(e, s2.kv) -> {"retaining_sink"}
-     [] cl = "GetEqualsModel" /\ ~StableOk(e) -> {"aliased_result"}
-     [] OTHER -> {}
+   IF ~Has(e, "obs") THEN {}
+   ELSE CASE cl = "ProofVerifiesToModel" /\ CopyProofOk(e, s2.kv) /\ ~RetainProofOk(e, s2.kv) -> {"retaining_sink"}
+          [] cl = "GetEqualsModel" /\ ~StableOk(e) -> {"aliased_result"}
+          [] OTHER -> {}
 
 \* the clause applies to this event
 Applies(cl, e, s1, s2) ==
@@ -72,6 +82,7 @@ Applies(cl, e, s1, s2) ==
      [] cl = "GcKeepsLiveRoots" -> Has(e, "roots")
      [] cl = "ProofVerifiesToModel" -> e.ev = "Prove" /\ c # Empty
      [] cl = "TamperedProofNeverLies" -> e.ev = "Prove" /\ c # Empty /\ Has(e, "tamper")
+     [] cl = "NoPanic" -> TRUE
      [] OTHER -> TRUE
 
 \* the clause holds on this event (evaluated only where it applies)
@@ -95,6 +106,7 @@ Holds(cl, e, s1, s2) ==
            /\ \A r \in DOMAIN s2.roots : Readable(s2, s2.roots[r]) => e.roots[r] = s2.roots[r]
      [] cl = "ProofVerifiesToModel" -> CopyProofOk(e, c) /\ RetainProofOk(e, c)
      [] cl = "TamperedProofNeverLies" -> \A i \in DOMAIN e.tamper.outs : e.tamper.outs[i] \in {-1, -2, c[e.args.k]}
+     [] cl = "NoPanic" -> ~Has(e, "panic")
 
 OpEvents == {"Update", "Delete", "Get", "Hash", "Iterate", "Prove", "Commit", "Reference", "Dereference", "Cap0", "CapHalf",
              "DbCommit", "Reopen", "Restart"}
@@ -121,22 +133,31 @@ MStep ==
         [] e.ev \in {"Vector", "DeriveSha"} ->
               \* published vectors: the real root and the reference calculator both give the published value;
               \* DeriveSha(list) = root of the map index -> item
-              LET ok == e.root = e.ref /\ (Has(e, "want") => e.root = e.want) IN
+              LET pan == Has(e, "panic")
+                  ok == ~pan /\ Has(e, "root") /\ Has(e, "ref") /\ e.root = e.ref /\ (Has(e, "want") => e.root = e.want) IN
               /\ fired' = [fired EXCEPT !["RootIsStandard"] = @ + 1]
-              /\ viol' = IF ok THEN viol ELSE viol \cup {<<"RootIsStandard", {e.ev}, l>>}
+              /\ viol' = IF ok THEN viol ELSE viol \cup {<<IF pan THEN "NoPanic" ELSE "RootIsStandard", {e.ev}, l>>}
               /\ UNCHANGED <<s, variant, rank, rootOf, tableok>>
         [] e.ev = "StateProof" ->
               \* the production route StateDB.GetProof / GetStorageProof (sink: proofList, which retains): the proof verifies to
               \* the account / slot value or to absence, right after the call and again after the next proof was produced
-              LET ok == e.res = e.want /\ e.again = e.want IN
-              /\ fired' = [fired EXCEPT !["ProofVerifiesToModel"] = @ + 1]
-              /\ viol' = IF ok THEN viol ELSE viol \cup {<<"ProofVerifiesToModel", {"StateProof", e.kind, "retaining_sink"}, l>>}
-              /\ UNCHANGED <<s, variant, rank, rootOf, tableok>>
+              IF Has(e, "panic")
+              THEN /\ fired' = [fired EXCEPT !["NoPanic"] = @ + 1]
+                   /\ viol' = viol \cup {<<"NoPanic", {"StateProof"}, l>>}
+                   /\ UNCHANGED <<s, variant, rank, rootOf, tableok>>
+              ELSE LET ok == /\ Has(e, "res") /\ Has(e, "again") /\ Has(e, "want")
+                             /\ e.res = e.want /\ e.again = e.want
+                       kd == IF Has(e, "kind") THEN e.kind ELSE "?" IN
+                   /\ fired' = [fired EXCEPT !["ProofVerifiesToModel"] = @ + 1]
+                   /\ viol' = IF ok THEN viol ELSE viol \cup {<<"ProofVerifiesToModel", {"StateProof", kd, "retaining_sink"}, l>>}
+                   /\ UNCHANGED <<s, variant, rank, rootOf, tableok>>
         [] e.ev \in OpEvents ->
               LET s2 == Apply(s, e.args)
                   t  == Tag(s2.kv)
-                  app == IF Has(e, "obs") THEN { cl \in ClauseNames : Applies(cl, e, s, s2) } ELSE {"GetEqualsModel"}
-                  bad == IF Has(e, "obs") THEN { cl \in app : ~Holds(cl, e, s, s2) } ELSE {"GetEqualsModel"} IN
+                  app == {"NoPanic"} \cup (IF Has(e, "obs") THEN { cl \in ObsClauses : Applies(cl, e, s, s2) } ELSE {})
+                  \* an event without an observation is a panicked action (or a driver fault): NoPanic fails, nothing else is read
+                  bad == (IF Has(e, "obs") THEN { cl \in app \ {"NoPanic"} : ~Holds(cl, e, s, s2) } ELSE {})
+                         \cup (IF Has(e, "panic") \/ ~Has(e, "obs") THEN {"NoPanic"} ELSE {}) IN
               /\ s' = s2
               /\ fired' = [cl \in ClauseNames |-> fired[cl] + (IF cl \in app THEN 1 ELSE 0)]
               \* never stops early, but keeps at most ~200 failures (the verdict needs one)
